@@ -51,6 +51,9 @@ RULE = {
     'C08': ('curation histories (merge/split/reassign/empty/undo) saved and (dirty-)reloaded; merge_map, '
             'empty ids, n_clusters, cluster waveforms after every reload'),
     'C09': 'loaded fresh and curated states; amplitude chain, means, peak channels, durations, depths',
+    'C17': ('E2 part: the model-level user of the selector - datasets with raw data whose chunk grid '
+            '(knob) has more or fewer than 20 chunks; after each save_spikes_subset_waveforms the '
+            'stored spike ids are checked against the selector constraints on that grid'),
     'C10': ('histories <= 24 ops over save_spike_clusters / save_metadata / foreign metadata files / '
             'save_spikes_subset_waveforms / close / reload / dirty_reload with torn-file faults, against '
             'a dictionary reference model'),
@@ -76,14 +79,15 @@ EXPECTED_PROBES = {
             'explicit_channels', 'minus_one_column', 'signal_free_column', 'all_zero_template',
             'queried_after_reload', 'wmi_file_left_by_earlier_load'],
     'C06': ['row_table', 'unknown_channel', 'empty_spike_list', 'waveform_route', 'tf_row_table',
-            'unsorted_spikes', 'same_table_densified_twice'],
+            'unsorted_spikes', 'same_table_densified_twice', 'very_large_unknown_channel_id'],
     'C08': ['multi_template_cluster', 'empty_id', 'undo', 'dirty_reload', 'highest_template_unused',
             'single_spike_cluster', 'tie_in_spike_counts'],
     'C09': ['empty_highest_id', 'curated', 'depths', 'zero_positive_part', 'batch_boundary_size'],
     'C10': ['torn_metadata', 'torn_store', 'foreign_malformed', 'repeated_save', 'dirty_reload',
             'store_checked', 'string_with_delimiter', 'none_dropped',
-            'legacy_csv_names_a_saved_field'],
+            'legacy_csv_names_a_saved_field', 'foreign_first_row_without_cluster_id'],
     'C03': ['torn_store', 'store_route', 'raw_fallback_route', 'non_stored_spike'],
+    'C17': ['more_than_20_chunks', 'model_level_selection_checked'],
 }
 
 STRINGS = ['good', 'mua', 'noise', 'hello world', 'a\tb', 'x,y', 'say "hi"', "it's", 'ünïcode',
@@ -205,6 +209,9 @@ def gen(rng, prop, tier):
                     if rng.random() < 0.2:
                         rng.shuffle(spikes)
                     chans = rng.sample(range(nc + 3), rng.randint(1, min(nc, 6)))
+                    if rng.random() < 0.12:
+                        # an unknown channel id far beyond the probe (sparse lookup tables)
+                        chans.insert(rng.randrange(len(chans) + 1), rng.choice([1000, 100000]))
                     ops.append({'op': 'q_features', 'spikes': spikes, 'chans': chans})
                 elif r < 0.8:
                     ops.append({'op': 'q_tfeatures', 'seed': rng.randint(0, 10 ** 6),
@@ -252,6 +259,21 @@ def gen(rng, prop, tier):
                 ops += [{'op': 'close'}, {'op': 'reload'}]
                 ops.append({'op': 'q_summaries', 'factor': rng.choice([1.0, 2.5]),
                             'use': 'clusters'})
+    elif prop == 'C17':
+        # the model-level user of the selector: save_spikes_subset_waveforms keeps 20 chunks of
+        # the recording's chunk grid and at most n spikes per template
+        p['raw'] = True
+        if cfg['raw'] is None:
+            cfg['raw'] = {'extra_channels': 0, 'dtype': 'int16', 'n_files': rng.choice([1, 2]),
+                          'ext': '.dat', 'offset': 0, 'tail': rng.randint(1, 20),
+                          'permute_map': rng.random() < 0.5}
+        cfg['raw']['format'] = 'flat'
+        cfg['knobs']['chunk'] = rng.choice([3, 5, 11, 50, 200, 100000])
+        cfg['ns'] = ns = max(ns, 30)
+        ops = [{'op': 'load'}]
+        for _ in range(rng.randint(1, 3)):
+            ops.append({'op': 'save_subset', 'n': rng.choice([1, 2, 3, 5, 50]),
+                        'factor': 1.0})
     elif prop in ('C10', 'C03'):
         if prop == 'C03' or rng.random() < 0.6:
             p['raw'] = True
@@ -304,8 +326,9 @@ def gen(rng, prop, tier):
                     ops.append({'op': 'foreign', 'kind': 'collide_csv', 'ext': '.csv',
                                 'name': 'cluster_groups_legacy', 'fields': [f], 'rows': rows})
                 elif r < 0.58:
-                    kind = rng.choice(['valid', 'valid', 'empty', 'header_only', 'garbage',
-                                       'ragged', 'no_cluster_id', 'cluster_info'])
+                    kind = rng.choice(['valid', 'valid', 'valid_blank_first', 'empty',
+                                       'header_only', 'garbage', 'ragged', 'no_cluster_id',
+                                       'cluster_info'])
                     n_foreign += 1
                     rows = []
                     fnames = ['x%d_%d' % (n_foreign, j) for j in range(rng.randint(1, 3))]
@@ -959,6 +982,8 @@ class DatasetWorld(object):
             ctx.probe('row_table')
         if any(c >= cfg['nc'] for c in op['chans']):
             ctx.probe('unknown_channel')
+        if any(c >= 1000 for c in op['chans']):
+            ctx.probe('very_large_unknown_channel_id')
         if len(spikes) == 0:
             ctx.probe('empty_spike_list')
         if list(op['spikes']) != sorted(op['spikes']):
@@ -1193,7 +1218,8 @@ class DatasetWorld(object):
             got = ctx.real(name, lambda: getattr(m, name), owners=('C09',))
             u = np.unique(vec)
             exp = np.array([amps[vec == k].mean() for k in u])
-            ctx.check(ref.close(got, exp, 1e-9), name, lambda: {'got': _desc(got),
+            atol = 1e-5 if cfg['dtypes'].get('amps') == 'float32' else 1e-9
+            ctx.check(ref.close(got, exp, atol), name, lambda: {'got': _desc(got),
                                                                 'expected': _desc(exp)})
         # peak channels and durations on the stored arrays
         for name, arr in (('templates', np.asarray(g.tmpl_data, dtype=np.float64)),
@@ -1258,10 +1284,17 @@ class DatasetWorld(object):
         fields = op['fields']
         buf = io.StringIO()
         wr = csv.writer(buf, delimiter=delim, lineterminator='\n')
-        if kind in ('valid', 'collide_csv', 'cluster_info', 'header_only', 'ragged',
-                    'no_cluster_id'):
+        if kind in ('valid', 'valid_blank_first', 'collide_csv', 'cluster_info', 'header_only',
+                    'ragged', 'no_cluster_id'):
             head = (['cluster_id'] if kind != 'no_cluster_id' else ['id']) + fields
             wr.writerow(head)
+            if kind == 'valid_blank_first':
+                # a first data row without cluster id (or a blank line): skipped, the rest counts
+                if len(fields) > 1:
+                    wr.writerow([''] + ['orphan'] * len(fields))
+                else:
+                    buf.write('\n')
+                ctx.probe('foreign_first_row_without_cluster_id')
             if kind != 'header_only':
                 for i, row in enumerate(op['rows']):
                     cells = [row['cluster_id']] + [row.get(f, '') for f in fields]
@@ -1277,7 +1310,7 @@ class DatasetWorld(object):
         ctx.fault('foreign_metadata:' + kind)
         if kind == 'collide_csv':
             ctx.probe('legacy_csv_names_a_saved_field')
-        if kind in ('valid', 'collide_csv'):
+        if kind in ('valid', 'valid_blank_first', 'collide_csv'):
             for f in fields:
                 mp = {}
                 for row in op['rows']:
@@ -1336,7 +1369,7 @@ class DatasetWorld(object):
         np.random.seed(op['n'] * 7919 + 13)
         ctx.real('save_spikes_subset_waveforms', m.save_spikes_subset_waveforms,
                  max_n_spikes_per_template=op['n'], sample2unit=op['factor'],
-                 owners=('C03', 'C10'))
+                 owners=('C03', 'C10', 'C17'))
         self.store = 'ok'
         self.store_factor = op['factor']
         ctx.op('save_subset')
@@ -1344,6 +1377,63 @@ class DatasetWorld(object):
         ctx.ev('save_subset', None if sw is None else np.asarray(sw.spike_ids))
         if ctx.prop in ('C03', 'C10'):
             self.check_store(require=True)
+        if ctx.prop == 'C17':
+            self.check_selection(op['n'])
+
+    def check_selection(self, n):
+        """C17 at model level: the spikes chosen by save_spikes_subset_waveforms honour the
+        selector's constraints on the recording's own chunk grid (20 chunks kept)."""
+        ctx, m, g, cfg = self.ctx, self.model, self.g, self.cfg
+        sw = m.spike_waveforms
+        if sw is None or np.asarray(sw.spike_ids).ndim != 1:
+            ctx.skipped['single-spike-store-squeezed'] += 1
+            return
+        ids = [int(x) for x in np.asarray(sw.spike_ids)]
+        bounds = [int(b) for b in m.traces.chunk_bounds]
+        n_chunks = len(bounds) - 1
+        ctx.check(all(a < b for a, b in zip(ids, ids[1:])), 'selection-not-strictly-increasing',
+                  lambda: {'ids': ids[:20]})
+        # the kept chunks are whole grid intervals at a regular stride from the first, at most 20:
+        # find a stride consistent with the chosen spikes
+        chunk_of = [int(np.searchsorted(bounds, int(g.samples[i]), side='right')) - 1
+                    for i in range(cfg['ns'])]
+        used = sorted(set(chunk_of[i] for i in ids))
+        strides = [s_ for s_ in range(1, n_chunks + 1)
+                   if len(range(0, n_chunks, s_)) <= 20 and all(u % s_ == 0 for u in used)]
+        ctx.check(bool(strides), 'selected-spike-outside-kept-chunks',
+                  lambda: {'chunks_used': used[:30], 'n_chunks': n_chunks})
+        if n_chunks > 20:
+            ctx.probe('more_than_20_chunks')
+        # per template: all eligible spikes if at most n, else exactly n - for the largest
+        # admissible set of kept chunks (smallest admissible stride)
+        ok_any = False
+        detail = None
+        for s_ in strides:
+            kept = set(range(0, n_chunks, s_))
+            good = True
+            for t in range(cfg['nt']):
+                elig = [i for i in range(cfg['ns']) if g.stemplates[i] == t and chunk_of[i] in kept]
+                chosen = [i for i in ids if g.stemplates[i] == t]
+                if not set(chosen) <= set(elig):
+                    good = False
+                    detail = {'template': t, 'stride': s_, 'why': 'chosen spike not eligible'}
+                    break
+                if len(elig) <= n:
+                    if chosen != elig:
+                        good = False
+                        detail = {'template': t, 'stride': s_, 'eligible': len(elig),
+                                  'chosen': len(chosen), 'n': n}
+                        break
+                elif len(chosen) != n:
+                    good = False
+                    detail = {'template': t, 'stride': s_, 'eligible': len(elig),
+                              'chosen': len(chosen), 'n': n}
+                    break
+            if good:
+                ok_any = True
+                break
+        ctx.check(ok_any, 'wrong-number-of-spikes-for-cluster', lambda: detail)
+        ctx.probe('model_level_selection_checked')
 
     def check_store(self, require=False):
         """Every stored waveform equals the window read from the raw data (x factor)."""
